@@ -311,8 +311,29 @@ def load_known():
         return {"findings": [], "fixed": []}
 
 
+class _Known(dict):
+    """known findings of one property; keys ending in '*' match by prefix"""
+
+    def match(self, key):
+        if dict.__contains__(self, key):
+            return dict.__getitem__(self, key)
+        for k, v in self.items():
+            if k.endswith("*") and str(key).startswith(k[:-1]):
+                return v
+        return None
+
+    def __contains__(self, key):
+        return self.match(key) is not None
+
+    def __getitem__(self, key):
+        m = self.match(key)
+        if m is None:
+            raise KeyError(key)
+        return m
+
+
 def known_keys(prop):
-    return {f["key"]: f for f in load_known().get("findings", []) if f.get("property") == prop}
+    return _Known({f["key"]: f for f in load_known().get("findings", []) if f.get("property") == prop})
 
 
 # ---------------------------------------------------------------------------- evidence
